@@ -199,6 +199,25 @@ def check(run, ctx):
             run.finding(B4, rec["func"], "splitlines-line-producer", f"{rec['func']}: `{rec['expr']}` is enumerated from 1 and the index becomes the reported line: a form feed / NEL / U+2028 inside the file shifts every later line number", rec["loc"])
         else:
             run.ok(B4, rec["func"], rec["use"], nontrivial=False)
+
+    B8 = run.rule("B8", "text quoted in a cross-file (stringly-typed) message comes from the member the violation is reported for, not from a representative of its group", floor=1,
+                  decides="the values quoted for file:line occur on that line, also when group members differ in case or order")
+    vg = ctx.repo.mod("src.linters.stringly_typed.violation_generator")
+    n_b8 = 0
+    for f in sorted([x for x in ctx.repo.funcs.values() if x.module is vg and x.parent is None], key=lambda x: x.qual):
+        texts = [n for n in ast.walk(f.node) if isinstance(n, ast.JoinedStr)]
+        if not texts:
+            continue   # not a message builder (the skip predicates may look at a representative)
+        rep = {t.id for a in ast.walk(f.node) if isinstance(a, ast.Assign) and isinstance(a.value, ast.Subscript) and isinstance(ctx.repo.fold(vg, a.value.slice), int) for t in a.targets if isinstance(t, ast.Name)}
+        for n in ast.walk(f.node):
+            if isinstance(n, ast.Attribute) and n.attr in ("string_values", "variable_name", "function_name", "param_index"):
+                n_b8 += 1
+                base = n.value
+                if (isinstance(base, ast.Subscript) and isinstance(ctx.repo.fold(vg, base.slice), int)) or (isinstance(base, ast.Name) and base.id in rep):
+                    run.finding(B8, f.qual.replace("src.linters.", ""), f"representative:{norm(n)[:40]}", f"{f.qual} builds message text from `{norm(n)}` - one fixed member of the group - while one violation is reported per member: for a member whose spelling differs (groups are matched case-insensitively) the message quotes values that do not occur on the reported line", f"{vg.rel}:{n.lineno}")
+                else:
+                    run.ok(B8, f"{f.name}:{norm(n)[:30]}", "read from the member itself")
+    run.require(n_b8 >= 1, "B8: no message builder reading member fields found in stringly_typed.violation_generator")
     return __doc__
 
 
